@@ -98,9 +98,14 @@ type Runner struct {
 
 // BrokenStateSuffix names known-defective states the history has already been through; checks
 // whose violations can be mere consequences of those append it to their signature.
-func (r *Runner) BrokenStateSuffix() string {
+func (r *Runner) BrokenStateSuffix() string { return r.brokenStateSuffix(false) }
+
+// brokenStateSuffix: with policyState set, only the known-defective states that damage the policy's own
+// bookkeeping count. A refused CreateContainer does not: KF1 says its side effects on OTHER containers stay
+// undelivered (the runtime's view goes stale), the policy's ledgers, pools and balloons must be as before.
+func (r *Runner) brokenStateSuffix(policyState bool) string {
 	sfx := ""
-	if r.Stats["create_failed"]+r.Stats["update_failed"] > 0 {
+	if r.Stats["update_failed"] > 0 || (!policyState && r.Stats["create_failed"] > 0) {
 		sfx += ":after-failed-request"
 	}
 	if r.Cond["C03/shared-oversubscribed"] || r.Cond["C03/empty-cpuset"] {
@@ -137,7 +142,7 @@ func (r *Runner) Violate(prop, check, sig, format string, args ...interface{}) {
 	// already been through carry that state in their signature (the defects themselves -
 	// C05/pending after a failed request, C03 drained pool, ... - are reported without it).
 	if derivedCheck[prop+"/"+check] {
-		if sfx := r.BrokenStateSuffix(); sfx != "" && !strings.Contains(sig, ":after-") && !strings.HasPrefix(sig, "stale-pinning") {
+		if sfx := r.brokenStateSuffix(policyStateCheck[prop+"/"+check]); sfx != "" && !strings.Contains(sig, ":after-") && !strings.HasPrefix(sig, "stale-pinning") {
 			sig += sfx
 		}
 	}
@@ -161,6 +166,12 @@ var derivedCheck = map[string]bool{
 	"C04/mems-vs-zone": true,
 	"C05/update-dead":  true, "C05/view-mismatch": true,
 	"C12/cpus-told": true, "C12/mems-told": true,
+	"C09/balloons-state": true, "C09/free-cpus": true, "C09/pool-state": true, "C09/leak-grant": true, "C09/leak-memory": true, "C09/leak-member": true, "C09/dead-holds": true, "C09/holder-uncached": true,
+}
+
+// policyStateCheck: derived clauses that look at the policy's own bookkeeping (not at what the runtime was told).
+var policyStateCheck = map[string]bool{
+	"C03/exclusive-count": true, "C03/grant-amount": true,
 	"C09/balloons-state": true, "C09/free-cpus": true, "C09/pool-state": true, "C09/leak-grant": true, "C09/leak-memory": true, "C09/leak-member": true, "C09/dead-holds": true, "C09/holder-uncached": true,
 }
 
